@@ -51,6 +51,10 @@ VERIF_FAIL = [
 TOOL_LIMIT = ["rlimit", "Resource limit", "timed out", "solver", "panicked", "internal error"]
 
 
+import threading
+_BUILD_LOCK = threading.Lock()
+
+
 def load_unit(name):
     path = os.path.join(UNITS, name + ".py")
     spec = importlib.util.spec_from_file_location("unit_" + name, path)
@@ -215,8 +219,11 @@ def _run_unit_once(name, workcopy, outdir, timeout=600, rlimit=None, dropped=())
         unit = load_unit(name)
         res["assumptions"] = list(unit.get("assumptions", []))
         res["property_obligations"] = unit.get("obligations", {})
-        text, log, fn_ob, under = build_unit(unit, workcopy, dropped)
-        res["helpers"] = list(getattr(build_unit, "helpers", []))
+        # extraction keeps per-unit state in module globals (SKIP, F64_FIELDS, build_unit.helpers):
+        # units are extracted one at a time, the verifier runs (the slow part) overlap
+        with _BUILD_LOCK:
+            text, log, fn_ob, under = build_unit(unit, workcopy, dropped)
+            res["helpers"] = list(getattr(build_unit, "helpers", []))
     except Undecided as e:
         res["reason"] = str(e)
         res["wall_s"] = time.time() - t0
